@@ -17,6 +17,8 @@ package main
 import (
 	"fmt"
 	"sort"
+	"os"
+	"runtime/pprof"
 	"strings"
 	"sync"
 	"time"
@@ -479,6 +481,9 @@ func main() {
 		r.Finish()
 	}
 
+	pf, _ := os.Create("/tmp/c18-smoke/cpu.prof")
+	pprof.StartCPUProfile(pf)
+	defer pprof.StopCPUProfile()
 	depth := r.Pick(5, 7)
 	cfgs := []config{
 		{User: sessrig.UserRWS, KS: false}, {User: sessrig.UserRW, KS: false},
@@ -567,5 +572,6 @@ func main() {
 			ev.Fatalf("vacuous run: fact %q never observed", f)
 		}
 	}
+	pprof.StopCPUProfile()
 	r.Finish()
 }
